@@ -88,7 +88,10 @@ AllPatterns == << <<"wL">>, <<"wS">>, <<>>, <<"w0">>, <<"wS", "wL">>, <<"f", "wL
                   <<"w0", "wL">>, <<"wL", "w0", "f">>, <<"f">>, <<"f", "f", "wS">>, <<"wL", "wL", "wL">>, <<"w0", "f", "wL">>, <<"wX">>, <<"wS", "f", "wX">>,
                   \* "h" = a further WriteHeader call after the response has begun (net/http ignores it; error
                   \* layers make one when they answer on top of a written response)
-                  <<"wS", "h", "wL">>, <<"wL", "h", "wS", "f">> >>
+                  <<"wS", "h", "wL">>, <<"wL", "h", "wS", "f">>,
+                  \* "i" = an informational header (103 Early Hints) sent before the handler has set its response
+                  \* headers; it decides nothing (listed first: the harness sends it before the headers)
+                  <<"i", "wL">>, <<"i", "wS", "f", "wL">> >>
 Bytes(op) == IF op = "wL" THEN 100 ELSE IF op = "wS" THEN 5 ELSE IF op = "wX" THEN 70000 ELSE 0
 RECURSIVE Total(_)
 Total(ops) == IF ops = <<>> THEN 0 ELSE Bytes(Head(ops)) + Total(Tail(ops))
@@ -216,6 +219,11 @@ DoHeaderAgain ==
     /\ opi' = opi + 1
     /\ UNCHANGED <<cfg, path, ae, inner, pc, engaged, raw, gzin, closed>>
 
+DoInfo ==
+    /\ pc = "ops" /\ opi <= Len(inner.ops) /\ CurOp = "i"
+    /\ opi' = opi + 1
+    /\ UNCHANGED <<cfg, path, ae, inner, pc, engaged, decided, compress, hdr, gzopen, wire, sent, raw, gzin, closed>>
+
 \* the handler returns: the server commits the headers if nobody did; deferred putWriter closes the stream
 Finish ==
     /\ pc = "ops" /\ opi > Len(inner.ops)
@@ -225,7 +233,7 @@ Finish ==
     /\ pc' = "done"
     /\ UNCHANGED <<cfg, path, ae, inner, opi, engaged, decided, compress, hdr, raw, gzin, gzopen>>
 
-Next == RequestFilters \/ InnerHeaders \/ DoStatus \/ DoWrite \/ DoFlush \/ DoHeaderAgain \/ Finish
+Next == RequestFilters \/ InnerHeaders \/ DoStatus \/ DoWrite \/ DoFlush \/ DoHeaderAgain \/ DoInfo \/ Finish
 Spec == Init /\ [][Next]_vars /\ WF_vars(Next)
 
 \* ---- declarative properties (the statement, clause by clause) ------------------------
